@@ -695,7 +695,14 @@ def truth_of(v):
             return a
         if a is not None and a[0] == "const":
             return {"True": TRUE, "False": FALSE, "None": FALSE}.get(a[1], ("truth", v.key()))
+        if a is not None and a[0] == "mcall" and a[1] in _SEQUENCE_VIEWS and not a[4]:
+            # the collected children / nodes / keys of something (list(...) of a view is the view's elements here): true
+            # iff there is at least one - the test `len(...) == 0` negated
+            return g_not(g_cmp("==", Poly.atom(("call", "len", (v.key(),), ())), Poly.const(0)))
     return ("truth", vkey(v))
+
+
+_SEQUENCE_VIEWS = {"successors", "predecessors", "children", "nodes", "node_indices", "edges", "in_edges", "out_edges", "keys", "values", "items", "descendants", "ancestors"}
 
 
 def ordering(g):
@@ -1131,6 +1138,17 @@ class Frame:
                 else:
                     self.I.events.append(Event("del", [self.eval(_load(t), st)], {}, st.guards, s))
             return [(st, ("fall",))]
+        if isinstance(s, ast.Try) and not s.handlers and not s.orelse:
+            # try ... finally (no handler): the body, then the clean-up on every way out of it; an outcome of the
+            # clean-up other than falling through replaces the body's
+            outs = []
+            for st1, oc1 in self.exec_block(s.body, st):
+                if oc1[0] == "raise":
+                    outs.append((st1, oc1))  # (the clean-up of a raising path contributes no value)
+                    continue
+                for st2, oc2 in self.exec_block(s.finalbody, st1):
+                    outs.append((st2, oc1 if oc2[0] == "fall" else oc2))
+            return outs
         raise Unsupported("statement %s in %s" % (type(s).__name__, self.fi.qualname))
 
     def exec_for(self, s, st):
@@ -1368,6 +1386,14 @@ class Frame:
             a = v.as_atom()
             if a is not None and a[0] == "val" and isinstance(a[1], tuple) and a[1] and a[1][0] == "tuple" and len(a[1]) - 1 == n:
                 return [_value_of_key(x) for x in a[1][1:]]  # a concrete tuple that went through a conditional / a list
+        if isinstance(v, Poly):
+            a = v.as_atom()
+            if a is not None and a[0] == "sub" and _is_polykey(a[2]):
+                sl = key_atom(a[2])
+                none_k = vkey(None)
+                if sl is not None and sl[0] == "slice" and sl[1] == none_k and sl[3] == none_k and _const_of_key(sl[2]) == n:
+                    # a, b = x[:2] unpacks the first two positions of x
+                    return [Poly.atom(("sub", a[1], Poly.const(i).key())) for i in range(n)]
         k = vkey(v)
         return [Poly.atom(("sub", k, Poly.const(i).key())) for i in range(n)]
 
@@ -1538,6 +1564,17 @@ class Frame:
         slot = ("@attr", vkey(base), attr)
         if slot in st.env:
             return st.env[slot]
+        if isinstance(base, Poly):
+            ca = base.as_atom()
+            if ca is not None and ca[0] in ("call", "mcall") and isinstance(ca[1], str):
+                short_ = ca[1].split(".")[-1]
+                fl = self.I.prog.returns_record(short_)
+                if not fl and ca[0] == "call":
+                    here_ = self.I.prog.resolve_function(short_, self.module)
+                    fl = self.I.prog.returns_record(short_, only=here_) if here_ is not None else None
+                if fl and attr in fl:
+                    # the result of a function that returns a named record: field `attr` is position fl.index(attr)
+                    return Poly.atom(("sub", vkey(base), Poly.const(fl.index(attr)).key()))
         if isinstance(base, Poly):
             na = base.as_atom()
             if na is not None and na[0] == "mcall" and na[1] == "__new__" and len(na[3]) == 1 and na[3][0] == na[2] and not na[4] and self._is_class_constant(attr):
@@ -1738,7 +1775,10 @@ class Frame:
                 n.id = ren[n.id]
             elif isinstance(n, ast.arg) and n.arg in ren:
                 n.arg = ren[n.arg]
-        return Poly.atom(("lambda", ast.unparse(e2)))
+        text = ast.unparse(e2)
+        # remember the closure (the values the free names have now), so that map(lambda ...) can apply it at once
+        self.I.__dict__.setdefault("lambdas", {})[text] = (e2, dict(st.env), self)
+        return Poly.atom(("lambda", text))
 
     def e_Starred(self, e, st):
         raise Unsupported("starred expression")
@@ -1785,6 +1825,14 @@ class Frame:
             cols = [AList([x.items[j] for x in base.items], list(base.doms)) for j in range(len(base.items[0].names))]
             return ARecord([Poly.atom(("sub", c.key(), idx.key())) for c in cols], base.items[0].names)
         ba = base.as_atom() if isinstance(base, Poly) else None
+        if ba is not None and ba[0] == "sub" and not isinstance(e.slice, (ast.Slice, ast.Tuple)) and isinstance(idx, Poly) and idx.is_const() and idx.const_value().denominator == 1 and idx.const_value() >= 0:
+            # x[:k][i] with 0 <= i < k (a prefix taken for unpacking) is x[i]
+            sl = key_atom(ba[2]) if _is_polykey(ba[2]) else None
+            none_k = vkey(None)
+            if sl is not None and sl[0] == "slice" and sl[1] == none_k and sl[3] == none_k:
+                hi = _const_of_key(sl[2])
+                if hi is not None and idx.const_value() < hi:
+                    return Poly.atom(("sub", ba[1], idx.key()))
         if ba is not None and ba[0] == "sub" and not isinstance(e.slice, (ast.Slice, ast.Tuple)) and isinstance(idx, Poly):
             # row = L[i, :]; row[j]  is  L[i, j]
             ik = ba[2]
@@ -1923,7 +1971,13 @@ class Frame:
         kwargs = {}
         for k in e.keywords:
             if k.arg is None:
-                kwargs["**"] = self.eval(k.value, st)
+                kv = self.eval(k.value, st)
+                if isinstance(kv, ADict) and not kv.doms and all(isinstance(kk, str) for kk, _ in kv.items.values()):
+                    # f(**{"a": x, "b": y}) with a table built here is f(a=x, b=y)
+                    for kk, vv in kv.items.values():
+                        kwargs[kk] = vv
+                else:
+                    kwargs["**"] = kv
             else:
                 kwargs[k.arg] = self.eval(k.value, st)
         f = e.func
@@ -2004,6 +2058,12 @@ class Frame:
     def call_named(self, dotted, shown, args, kwargs, st, node):
         name = self.canonical_name(dotted)
         short = name.split(".")[-1]
+        if name in LIB_POSITIONAL and kwargs:
+            # library calls whose leading parameters may be given by name: one spelling (positional)
+            args, kwargs = list(args), dict(kwargs)
+            sig = LIB_POSITIONAL[name]
+            while len(args) < len(sig) and sig[len(args)] in kwargs:
+                args.append(kwargs.pop(sig[len(args)]))
         if dotted == "str" and len(args) == 1 and not kwargs and "str" not in st.env:
             return make_str(_piece_of(args[0]))
         if name == "collections.defaultdict" and len(args) == 2 and not kwargs and isinstance(args[1], ADict) and args[1].items:
@@ -2259,6 +2319,14 @@ class Frame:
         if a is not None and a[0] == "attr":
             self.I.events.append(Event("." + a[2], args, {}, st.guards, node, recv=None))
             return Poly.atom(("mcall", a[2], a[1], tuple(vkey(x) for x in args), ()))
+        if a is not None and a[0] == "lambda" and a[1] in self.I.__dict__.get("lambdas", {}):
+            lam, env0, frame = self.I.__dict__["lambdas"][a[1]]
+            names = [x.arg for x in lam.args.posonlyargs + lam.args.args]
+            if len(names) == len(args) and not lam.args.vararg and not lam.args.kwarg and not lam.args.kwonlyargs:
+                env = dict(env0)
+                env.update(zip(names, args))
+                st2 = State(env, st.guards)
+                return frame.eval(lam.body, st2)
         raise Unsupported("call through reference %s" % show(fref))
 
     def fold_delegate(self, fi, args, kwargs, st, node):
@@ -2572,6 +2640,10 @@ class Frame:
         self.I.events.append(Event("." + name, args, kwargs, st.guards, node, recv=recv))
         if name == "sum" and not args and not kwargs:
             return Poly.atom(("call", "sum", (vkey(recv),), ()))  # x.sum() is sum(x)
+        if name in ("sum", "max", "min") and isinstance(recv, Poly) and set(kwargs) <= {"axis", "keepdims"} and len(args) <= 1:
+            # array.sum(axis=k) is np.sum(array, axis=k) (the event above records the spelling; the value is one term)
+            self.I.events.pop()
+            return self.call_named("np." + name, "np." + name, [recv] + list(args), dict(kwargs), st, node)
         return Poly.atom(("mcall", name, vkey(recv), tuple(vkey(a) for a in args), tuple(sorted(((k, vkey(v)) for k, v in kwargs.items()), key=_k))))
 
 
@@ -2587,6 +2659,11 @@ def _run_inlined(interp, fi, args, kwargs, self_cls, st):
 
 _USE_DEFAULT = object()
 
+
+LIB_POSITIONAL = {
+    "scipy.stats.gamma.rvs": ["a"], "scipy.stats.beta.rvs": ["a", "b"], "scipy.stats.bernoulli.rvs": ["p"],
+    "scipy.stats.gamma.logpdf": ["x", "a"], "scipy.stats.beta.logpdf": ["x", "a", "b"],
+}
 
 CLASS_CONSTANTS = set()  # names bound in exactly one way in class bodies of the program under analysis (filled by Interp)
 
